@@ -518,84 +518,7 @@ def run(fx, tier):
     if n_ta == 0:
         raise AnalysisBroken('publish_send_op::validate_props not found')
 
-    # the size bound applies to the WHOLE argument: the size guard reads the parameter before anything
-    # shortens it (remove_prefix / remove_suffix / re-assignment), rejects on failure, and dominates every
-    # return that is not `invalid`
-    MUT = ('remove_prefix', 'remove_suffix', 'operator=', 'swap')
-    whole = {'validate_topic_filter': 'is_valid_topic_size', 'validate_shared_topic_filter': 'is_valid_topic_size', 'validate_impl': None}
-    n_whole = 0
-    seen_w = set()
-    for g in fx.fns:
-        if g.lam or g.n not in whole or not g.q.startswith('boost::mqtt5::detail::') or not g.params:
-            continue
-        sig = (g.n, tuple(p_.get('t') for p_ in g.params[1:]))
-        if sig in seen_w:
-            continue
-        seen_w.add(sig)
-        n_whole += 1
-        p0 = g.params[0]['d']
-        dom = g.dominators()
-
-        def is_p0(x):
-            x = strip(x)
-            return isinstance(x, dict) and x.get('k') == 'ref' and x.get('d') == p0
-
-        def size_guard(cond, pol):
-            """(callee, position of the size() read) if the established fact is `pred(param0.size())` accepted"""
-            cm = comparison(origin(g, cond), pol)
-            if not cm or cm[0] != '!=':
-                return None
-            c = core(cm[1])
-            if not (isinstance(c, dict) and c.get('k') == 'call' and len(c.get('args', [])) >= 1):
-                return None
-            arg = core(c['args'][-1])
-            if not (is_call(arg, 'size') or is_call(arg, 'length')) or not is_p0(arg.get('obj')):
-                return None
-            callee = callee_name(c)
-            if isinstance(c.get('callee'), dict):
-                tgt = strip(c['callee'])
-                callee = 'param:%s' % tgt.get('n') if isinstance(tgt, dict) and tgt.get('dk') == 'param' else callee
-            return callee, arg.get('_at')
-        inst = '%s%s' % (g.n, g.inst()[:50])
-        want = whole[g.n]
-        from flow import edge_guards
-        unguarded, reads, callees = [], set(), set()
-        n_ret = 0
-        for bb in g.blocks:
-            for x in g.blocks[bb].elems:
-                if not (isinstance(x, dict) and x.get('k') == 'ret'):
-                    continue
-                if enum_of(_expand(g, g.resolve(x)).get('e')) == 'invalid':
-                    continue
-                n_ret += 1
-                found = None
-                for cond, pol, gb in edge_guards(g, bb):
-                    sg = size_guard(cond, pol)
-                    if sg and (want is None and sg[0].startswith('param:') or sg[0] == want):
-                        found = sg
-                        break
-                if found is None:
-                    unguarded.append(bb)
-                else:
-                    callees.add(found[0])
-                    if found[1]:
-                        reads.add(tuple(found[1]))
-        # nothing shortens the argument before its size is read
-        early = []
-        for bb, ii, ll, cc in g.calls():
-            if callee_name(cc) in MUT and is_p0(cc.get('obj', (cc.get('args') or [None])[0])):
-                for (rb, ri) in reads:
-                    if (bb == rb and ii < ri) or (bb != rb and rb in _reach_blocks(g, bb)):
-                        early.append('%s at line %s' % (callee_name(cc), ll))
-        if n_ret == 0:
-            raise AnalysisBroken('%s: no accepting return found' % g.describe())
-        ok = not unguarded and not early and bool(reads)
-        v.check(ok, 'R-TABLE', '%s:whole-argument-size' % inst,
-                'every outcome other than invalid is reached only when %s(argument.size()) accepted, and the size is read before anything shortens the argument%s' % (
-                    want or 'size_condition', '' if ok else ' — NOT: accepting returns without the guard: %s; shortened first by %s' % (unguarded, early)),
-                key='C16:R-TABLE:%s:whole-argument-size' % g.n, where=g.file)
-    if n_whole < 3:
-        raise AnalysisBroken('whole-argument size rule: only %d validator bodies found' % n_whole)
+    whole_argument_size_rules(fx, v, 'C16')
 
     # ------------------------------------------------------------------ R-FLOW
     with open(os.path.join(VERIF, 'spec', 'properties.json')) as fh:
@@ -752,3 +675,85 @@ def _constval(x):
         else:
             return None
     return None
+
+
+def whole_argument_size_rules(fx, v, prop='C16'):
+    """shared with C17: a string longer than 65535 bytes that slips through is written with a wrapped two-byte length"""
+    # the size bound applies to the WHOLE argument: the size guard reads the parameter before anything
+    # shortens it (remove_prefix / remove_suffix / re-assignment), rejects on failure, and dominates every
+    # return that is not `invalid`
+    MUT = ('remove_prefix', 'remove_suffix', 'operator=', 'swap')
+    whole = {'validate_topic_filter': 'is_valid_topic_size', 'validate_shared_topic_filter': 'is_valid_topic_size', 'validate_impl': None}
+    n_whole = 0
+    seen_w = set()
+    for g in fx.fns:
+        if g.lam or g.n not in whole or not g.q.startswith('boost::mqtt5::detail::') or not g.params:
+            continue
+        sig = (g.n, tuple(p_.get('t') for p_ in g.params[1:]))
+        if sig in seen_w:
+            continue
+        seen_w.add(sig)
+        n_whole += 1
+        p0 = g.params[0]['d']
+        dom = g.dominators()
+
+        def is_p0(x):
+            x = strip(x)
+            return isinstance(x, dict) and x.get('k') == 'ref' and x.get('d') == p0
+
+        def size_guard(cond, pol):
+            """(callee, position of the size() read) if the established fact is `pred(param0.size())` accepted"""
+            cm = comparison(origin(g, cond), pol)
+            if not cm or cm[0] != '!=':
+                return None
+            c = core(cm[1])
+            if not (isinstance(c, dict) and c.get('k') == 'call' and len(c.get('args', [])) >= 1):
+                return None
+            arg = core(c['args'][-1])
+            if not (is_call(arg, 'size') or is_call(arg, 'length')) or not is_p0(arg.get('obj')):
+                return None
+            callee = callee_name(c)
+            if isinstance(c.get('callee'), dict):
+                tgt = strip(c['callee'])
+                callee = 'param:%s' % tgt.get('n') if isinstance(tgt, dict) and tgt.get('dk') == 'param' else callee
+            return callee, arg.get('_at')
+        inst = '%s%s' % (g.n, g.inst()[:50])
+        want = whole[g.n]
+        from flow import edge_guards
+        unguarded, reads, callees = [], set(), set()
+        n_ret = 0
+        for bb in g.blocks:
+            for x in g.blocks[bb].elems:
+                if not (isinstance(x, dict) and x.get('k') == 'ret'):
+                    continue
+                if enum_of(_expand(g, g.resolve(x)).get('e')) == 'invalid':
+                    continue
+                n_ret += 1
+                found = None
+                for cond, pol, gb in edge_guards(g, bb):
+                    sg = size_guard(cond, pol)
+                    if sg and (want is None and sg[0].startswith('param:') or sg[0] == want):
+                        found = sg
+                        break
+                if found is None:
+                    unguarded.append(bb)
+                else:
+                    callees.add(found[0])
+                    if found[1]:
+                        reads.add(tuple(found[1]))
+        # nothing shortens the argument before its size is read
+        early = []
+        for bb, ii, ll, cc in g.calls():
+            if callee_name(cc) in MUT and is_p0(cc.get('obj', (cc.get('args') or [None])[0])):
+                for (rb, ri) in reads:
+                    if (bb == rb and ii < ri) or (bb != rb and rb in _reach_blocks(g, bb)):
+                        early.append('%s at line %s' % (callee_name(cc), ll))
+        if n_ret == 0:
+            raise AnalysisBroken('%s: no accepting return found' % g.describe())
+        ok = not unguarded and not early and bool(reads)
+        v.check(ok, 'R-TABLE', '%s:whole-argument-size' % inst,
+                'every outcome other than invalid is reached only when %s(argument.size()) accepted, and the size is read before anything shortens the argument%s' % (
+                    want or 'size_condition', '' if ok else ' — NOT: accepting returns without the guard: %s; shortened first by %s' % (unguarded, early)),
+                key='%s:R-TABLE:%s:whole-argument-size' % (prop, g.n), where=g.file)
+    if n_whole < 3:
+        raise AnalysisBroken('whole-argument size rule: only %d validator bodies found' % n_whole)
